@@ -153,12 +153,13 @@ func init() {
 	c17r.Steps = 70
 	sup.Register(&sup.Check{
 		Prop: "C17", Level: "exploration",
-		Rule:        "(concurrent) 2-6 goroutines over 1-3 handles mutate one key through body writes, touches, xattr-only writes, sub-document writes, deletions and re-creations: the final $document.revid must be the start value plus the number of acknowledged mutations, and the RevNo values of the key's live events must be strictly increasing and end at that number; (sequential) engine A: after every step the model's revision counter (previous+1 on success, unchanged on failure, 1 on creation or re-creation after purge) is compared through four observers: $document.revid, the revid inside $document, RevNo of the live event (on ordinary and on KeysOnly feeds) and RevNo of the key's backfill event (every fourth dump KeysOnly); every entry point x pre-state enumerated plus random histories; cell = (op variant, pre-state class, outcome, bucket type)",
+		Rule:        "(concurrent) 2-6 goroutines over 1-3 handles mutate one key through body writes, touches, xattr-only writes, sub-document writes, deletions and re-creations: the final $document.revid must be the start value plus the number of acknowledged mutations, and the RevNo values of the key's live events must be strictly increasing and end at that number; (sequential) engine A: after every step the model's revision counter (previous+1 on success, unchanged on failure, 1 on creation or re-creation after purge) is compared through four observers: $document.revid, the revid inside $document, RevNo of the live event (on ordinary and on KeysOnly feeds) and RevNo of the key's backfill event (every fourth dump KeysOnly); every entry point x pre-state enumerated plus random histories; (refused inside the transaction) an expression index that cannot be evaluated over rows lacking an xattr / body property makes the statement of a write fail after the entry point has incremented the revision and filled in its event: an acknowledged call raises $document.revid by one and posts one live event with that number, a refused call leaves the revision and posts no event (fence write after every call); cell = (op variant, pre-state class, outcome, bucket type)",
 		Assumptions: kvAssume,
 		Parts: []sup.Part{
 			exhaustivePart("exhaustive", c17),
 			randomPart("random", 800, 12000, c17r),
 			{Name: "concurrent-count", Timeout: 90 * time.Second, Count: func(t string) int { return tierN(t, 120, 2400) }, Run: revCountScenario},
+			{Name: "refused-inside-the-transaction", Timeout: 90 * time.Second, Count: func(t string) int { return tierN(t, 60, 1200) }, Run: refusedWriteScenario},
 		},
 		Floor: cellsFloor(300),
 	})
